@@ -24,16 +24,17 @@ private:
   std::shared_ptr<FunctionInterface> function_;
   std::string constraintPolicy_;
   std::shared_ptr<OutputStream> messenger_;
+  unsigned int nbEval_; // number of times the underlying function has been set since the last call of init()
 
 public:
   DirectionFunction(std::shared_ptr<FunctionInterface> function = nullptr) :
     params_(), p_(), xt_(), xi_(),
     function_(function), constraintPolicy_(AutoParameter::CONSTRAINTS_KEEP),
-    messenger_(ApplicationTools::message) {}
+    messenger_(ApplicationTools::message), nbEval_(0) {}
 
   DirectionFunction(const DirectionFunction& df) :
     ParametrizableAdapter(df), params_(df.params_), p_(df.p_), xt_(df.p_), xi_(df.xi_),
-    function_(df.function_), constraintPolicy_(df.constraintPolicy_), messenger_(df.messenger_) {}
+    function_(df.function_), constraintPolicy_(df.constraintPolicy_), messenger_(df.messenger_), nbEval_(df.nbEval_) {}
 
   DirectionFunction& operator=(const DirectionFunction& df)
   {
@@ -45,6 +46,7 @@ public:
     function_ = df.function_;
     constraintPolicy_ = df.constraintPolicy_;
     messenger_ = df.messenger_;
+    nbEval_ = df.nbEval_;
     return *this;
   }
 
@@ -75,6 +77,11 @@ public:
   ParameterList getFunctionParameters() const { return p_; }
 
   size_t getNumberOfParameters() const override { return p_.size(); }
+
+  /**
+   * @return The number of evaluations of the underlying function made through this object since the last call of init().
+   */
+  unsigned int getNumberOfEvaluations() const { return nbEval_; }
 
 protected:
   ParameterList& getParameters_() override;
